@@ -289,9 +289,11 @@ class Module(object):
                 src = f.read()
         self.src = src
         self.lines = self.src.split("\n")
-        from .inline import inline_module, normalize_module
+        from .inline import inline_module, normalize_module, unrename_module
+        self.unrenamed = getattr(tree, "_unrenamed", {}) if tree is not None else {}
         if tree is None:
             tree = ast.parse(self.src, path)
+            self.unrenamed = unrename_module(tree, name)
             normalize_module(tree)
         self.tree = tree
         self.inlined = inline_module(self.tree, name)  # {class name or None: helper names analysed at their call sites}
@@ -304,6 +306,15 @@ class Module(object):
         pxd_path = path[:-3] + ".pxd"
         self.pxd = parse_pxd(pxd_path) if os.path.exists(pxd_path) else None
         self.pxd_path = pxd_path if self.pxd else None
+        if self.pxd is not None:
+            for cname, mapping in self.unrenamed.items():
+                pc = self.pxd.classes.get(cname)
+                if pc is not None:
+                    for new_, old_ in mapping.items():
+                        if new_ in pc.methods and old_ not in pc.methods:
+                            pc.methods[old_] = pc.methods.pop(new_)
+                            if hasattr(pc.methods[old_], "name"):
+                                pc.methods[old_].name = old_
         self.imports = {}  # local name -> ('mod', dotted) | ('name', dotted module, attr)
         self.classes = {}
         self.functions = {}  # top level functions
@@ -408,6 +419,8 @@ class Repo(object):
                     tree = ast.parse(src, path)
                 except SyntaxError as e:
                     raise AnalysisError("cannot parse %s: %s" % (path, e))
+                from .inline import unrename_module
+                tree._unrenamed = unrename_module(tree, name)
                 normalize_module(tree)
                 parsed[name] = (path, src, tree)
         self.package_notes = normalize_package(dict((n, v[2]) for n, v in parsed.items()))
